@@ -382,11 +382,14 @@ void end_run_cleanup() {
 
 // ---------------------------------------------------------------------- C seams used by the library object
 extern "C" {
-void *pncv_malloc(size_t n) { void *p = malloc(n); sim::track(p, n); return p; }
+void *pncv_malloc(size_t n) { void *p = malloc(n); if (p && n) memset(p, 0xCB, n); /* deterministic content of uninitialised library memory */ sim::track(p, n); return p; }
 void *pncv_calloc(size_t a, size_t b) { void *p = calloc(a, b); sim::track(p, a * b); return p; }
 void *pncv_realloc(void *q, size_t n) {
+    size_t oldn = 0;
+    if (q && sim::allocs) { auto it = sim::allocs->find(q); if (it != sim::allocs->end()) oldn = it->second.size; }
     if (q) sim::untrack(q);
     void *p = realloc(q, n);
+    if (p && n > oldn) memset((char *)p + oldn, 0xCB, n - oldn);
     if (n || p) sim::track(p, n);
     return p;
 }
